@@ -50,9 +50,13 @@ type c12Report struct {
 
 // c12Worker runs inside a -race child process: `check worker c12 <seed> <nconfigs> <reps> <gomaxprocs> <out.json>`.
 func c12Worker(args []string) int {
-	if len(args) != 5 {
-		fmt.Fprintln(os.Stderr, "usage: worker c12 seed nconfigs reps gomaxprocs out.json")
+	if len(args) != 5 && len(args) != 6 {
+		fmt.Fprintln(os.Stderr, "usage: worker c12 seed nconfigs reps gomaxprocs out.json [scenario-shift]")
 		return 2
+	}
+	shift := 0
+	if len(args) == 6 {
+		shift, _ = strconv.Atoi(args[5])
 	}
 	seed, _ := strconv.ParseUint(args[0], 10, 64)
 	ncfg, _ := strconv.Atoi(args[1])
@@ -98,7 +102,7 @@ func c12Worker(args []string) int {
 		}
 		y := s.YAML()
 		isSigned := func(f string) bool { return signed && (f == "deb" || f == "rpm" || f == "apk") }
-		// sequential baseline; for odd configs it is taken AFTER the concurrent
+		// sequential baseline; for three configs out of four it is taken AFTER the concurrent
 		// scenarios, so that those are the first packagings of their kind in the
 		// process (nothing is warmed up by a sequential run)
 		baseline := func() bool {
@@ -118,7 +122,7 @@ func c12Worker(args []string) int {
 			}
 			return true
 		}
-		if ci%2 == 0 && !baseline() {
+		if ci%4 == 2 && !baseline() {
 			return 2
 		}
 		r := rng.New(seed).Fork(uint64(9000 + ci))
@@ -192,8 +196,8 @@ func c12Worker(args []string) int {
 					for g := 0; g < n; g++ {
 						wg.Add(1)
 						f := formats[r.Intn(len(formats))]
-						if g < 3 {
-							f = []string{"deb", "deb", "rpm"}[g] // always some goroutines on the same format
+						if g < 6 {
+							f = []string{"deb", "deb", "rpm", "rpm", "archlinux", "archlinux"}[g] // always some goroutines on the same format
 						}
 						go pkg(fmt.Sprintf("c:independent-settings-%d", n), rp, g, f, func() (*nfpm.Info, error) {
 							cfg, err := parseYAML(y, env)
@@ -208,13 +212,15 @@ func c12Worker(args []string) int {
 				}
 			}
 			// rotate the order so that each scenario is, for some configuration,
-			// the first concurrent use of that configuration's keys and sources
-			order := [][]func(){{scenA, scenB, scenC}, {scenC, scenA, scenB}, {scenB, scenC, scenA}}[ci%3]
+			// the first concurrent use of that configuration's keys and sources; the
+			// rotation is shifted per child process, so that process-wide lazily
+			// initialised state meets a different first scenario in each child
+			order := [][]func(){{scenA, scenB, scenC}, {scenC, scenA, scenB}, {scenB, scenC, scenA}}[(ci+shift)%3]
 			for _, sc := range order {
 				sc()
 			}
 		}
-		if ci%2 == 1 && !baseline() {
+		if ci%4 != 2 && !baseline() {
 			return 2
 		}
 		removeWorkDir(root)
@@ -298,7 +304,7 @@ func c12(run *ev.Run, tier string) {
 	if *flagCases > 0 {
 		ncfg = *flagCases
 	}
-	run.Rule = "a -race build of the harness runs, in a child process per GOMAXPROCS value, three scenarios per generated aliasing-rich configuration (file_info on dir/symlink/ghost entries, per-format overrides, every third config signed with passphrase-protected keys, zstd/xz/gzip compressors): (a) one parsed config, Get up front, five formats concurrently; (b) same with Get inside the goroutines; (c) 8 / 32 goroutines with independently parsed settings and any format incl. the same one; start offsets are jittered from the seed. Monitors: race-detector reports (log_path files, deduplicated by the innermost nfpm functions of both accesses), panics/fatal errors, errors that the sequential build does not have, and byte equality of every unsigned concurrent result with the sequential baseline. non-trivial = packaging that overlapped in time with another one; distinct = distinct sets of formats observed in flight together"
+	run.Rule = "a -race build of the harness runs, in a child process per GOMAXPROCS value, three scenarios per generated aliasing-rich configuration (file_info on dir/symlink/ghost entries, per-format overrides, every third config signed with passphrase-protected keys, zstd/xz/gzip compressors): (a) one parsed config, Get up front, five formats concurrently; (b) same with Get inside the goroutines; (c) 8 / 32 goroutines with independently parsed settings and any format incl. the same one; start offsets are jittered from the seed; the scenario order rotates per configuration and per child, and three configurations out of four take their sequential baseline only after the concurrent scenarios (cold start of process-wide state). Monitors: race-detector reports (log_path files, deduplicated by the innermost nfpm functions of both accesses), panics/fatal errors, errors that the sequential build does not have, and byte equality of every unsigned concurrent result with the sequential baseline. non-trivial = packaging that overlapped in time with another one; distinct = distinct sets of formats observed in flight together"
 	if !raceEnabled {
 		run.Inconclusive("the harness was built without -race; run through bin/check.sh C12")
 		return
@@ -313,10 +319,10 @@ func c12(run *ev.Run, tier string) {
 	overlapSets := map[string]bool{}
 	var packagings, overlapped, compared, raceBlocks int
 	raceKeys := map[string]int{}
-	for _, g := range gmps {
+	for gi, g := range gmps {
 		out := filepath.Join(dir, fmt.Sprintf("report-%d.json", g))
 		logp := filepath.Join(dir, fmt.Sprintf("race-%d", g))
-		args := []string{"worker", "c12", strconv.FormatInt(run.Seed, 10), strconv.Itoa(ncfg), strconv.Itoa(reps), strconv.Itoa(g), out}
+		args := []string{"worker", "c12", strconv.FormatInt(run.Seed, 10), strconv.Itoa(ncfg), strconv.Itoa(reps), strconv.Itoa(g), out, strconv.Itoa(gi)}
 		cmdline := self + " " + strings.Join(args, " ")
 		_ = os.WriteFile(filepath.Join(dir, fmt.Sprintf("cmd-%d.txt", g)), []byte(cmdline+"\n"), 0o644)
 		cmd := exec.Command("timeout", append([]string{"-s", "QUIT", "1500", self}, args...)...)
